@@ -362,6 +362,48 @@ impl<'a> System<'a> for HSysW {
     }
 }
 
+/// A system whose `accessor()` callback uses the library itself: the first few times it is asked
+/// for its accessor (that is: while it is being registered) it fills another builder on the same
+/// thread. Registration is re-entrant as far as user callbacks are concerned.
+pub struct HSysR {
+    inner: HSys,
+    asked: std::sync::atomic::AtomicU8,
+}
+
+impl HSysR {
+    pub fn new(sp: &SysSpec, ctx: &Arc<Ctx>) -> HSysR {
+        HSysR { inner: HSys::new(sp, ctx), asked: std::sync::atomic::AtomicU8::new(0) }
+    }
+}
+
+impl<'a> System<'a> for HSysR {
+    type SystemData = HData<'a>;
+    fn run(&mut self, data: HData<'a>) {
+        self.inner.run(data)
+    }
+    fn running_time(&self) -> RunningTime {
+        self.inner.running_time()
+    }
+    fn accessor<'b>(&'b self) -> AccessorCow<'a, 'b, Self> {
+        if self.asked.load(Relaxed) < 3 {
+            self.asked.fetch_add(1, Relaxed);
+            let ghost = SysSpec { uid: 0, name: String::new(), deps: vec![], reads: self.inner.acc.rslots.clone(), writes: self.inner.acc.wslots.clone(), time: 3, kind: Kind::Dyn };
+            let mut other = DispatcherBuilder::new();
+            other.add(HSys::new(&ghost, &self.inner.acc.ctx), "registered from inside a callback", &[]);
+            other.add_barrier();
+            other.add(HSys::new(&ghost, &self.inner.acc.ctx), "", &["registered from inside a callback"]);
+            drop(other);
+        }
+        AccessorCow::Ref(&self.inner.acc)
+    }
+    fn setup(&mut self, world: &mut World) {
+        System::setup(&mut self.inner, world)
+    }
+    fn dispose(self, world: &mut World) {
+        System::dispose(self.inner, world)
+    }
+}
+
 // ------------------------------------------------------------------------------------------------
 // Static systems: a menu of real library `SystemData` types
 // ------------------------------------------------------------------------------------------------
@@ -1066,11 +1108,13 @@ pub fn register(b: &mut DispatcherBuilder<'static, 'static>, it: &Item, ctx: &Ar
         Item::Sys(sp) => {
             let deps: Vec<&str> = sp.deps.iter().map(|d| d.as_str()).collect();
             match sp.kind {
-                // three flavours of a dynamic system: the accessor type has no default / an empty
-                // default / a wide default - `accessor()` of the instance is what counts
+                // flavours of a dynamic system: the accessor type has no default / an empty default /
+                // a wide default (`accessor()` of the instance is what counts), and one whose
+                // `accessor()` callback registers into another builder while it is being registered
                 Kind::Dyn => match sp.uid % 7 {
                     3 => b.add(HSysD::new(sp, ctx), &sp.name, &deps),
                     5 => b.add(HSysW::new(sp, ctx), &sp.name, &deps),
+                    1 => b.add(HSysR::new(sp, ctx), &sp.name, &deps),
                     _ => b.add(HSys::new(sp, ctx), &sp.name, &deps),
                 },
                 Kind::Static(m) => {
